@@ -2,7 +2,8 @@ from vlib import Job
 
 GLUE = ["__parsec_schedule", "__parsec_schedule_vp", "__parsec_schedule_flush_private", "__parsec_reschedule"]
 MODS = ["ap", "ip", "rnd", "spq", "gd"]          # covered modules (history jobs); ll, lfq, lhq, ltq, pbq, llp: NOT covered
-MODFN = [f % m for m in MODS for f in ("sched_%s_schedule", "sched_%s_select")] + ["lifo_chain_sorted", "lifo_merge_ring"]
+MODFN = [f % m for m in MODS for f in ("sched_%s_schedule", "sched_%s_select")] + ["lifo_chain_sorted", "lifo_merge_ring",
+         "parsec_hbbuffer_push_all_by_priority", "parsec_hbbuffer_push_all", "parsec_hbbuffer_pop_best"]
 # recursion / class-table loops of the object system, spin lock without contention
 US = {"expand_array.0": 11, "parsec_atomic_lock.0": 2, "parsec_obj_destruct_and_free": 1, "parsec_obj_run_destructors": 1,
       "parsec_obj_destruct": 1}
@@ -111,6 +112,34 @@ def jobs(tier):
                                       "before and after each fence / CAS" % ("0..%d" % n if ds is None else "== 0" if ds == 0 else ">= 1", mf, mr)),
                      functions=["lifo_chain_sorted", "lifo_merge_ring"], min_obligations=12, timeout=1800 if full else 600, mem_gb=8,
                      object_bits=10 if mr else None))     # the second round doubles the number of addressed (local) objects
+    # ---------------- part 4: hierarchical bounded buffer (hbbuffer.c), sequential contracts + one interference job each
+    def hus(b, k, env):
+        return {"parsec_hbbuffer_push_all_by_priority.0": b + 1, "parsec_hbbuffer_push_all_by_priority.3": k + 1 + 2 * env,
+                "parsec_hbbuffer_push_all.1": b + 1, "parsec_hbbuffer_push_all.2": k + 1,
+                "parsec_hbbuffer_pop_best.0": b + 1, "parsec_hbbuffer_pop_best.1": 2}
+
+    def hb(b, k, extra=""):
+        return "buffer of %d slots, pushed ring of %d tasks (occupancy, all priorities, distance symbolic)%s" % (b, k, extra)
+    HP = [(2, 1), (2, 2), (2, 3), (3, 2)] + ([(4, 3), (1, 2), (3, 1), (3, 3), (4, 1), (4, 2)] if full else [])
+    for b, k in HP:
+        J.append(Job("hbb.push_prio.b%d.k%d" % (b, k), "h_hbb.c", entry="h_push_prio", defines={"BSIZE": b, "K": k}, unwind=b + k + 3,
+                     unwindset=hus(b, k, 0), object_bits=10, bounded=hb(b, k), functions=["parsec_hbbuffer_push_all_by_priority"],
+                     min_obligations=12, timeout=600))
+    for b, k in [(2, 2), (3, 3)] + ([(1, 2), (2, 3), (4, 2), (4, 3)] if full else []):
+        J.append(Job("hbb.push_all.b%d.k%d" % (b, k), "h_hbb.c", entry="h_push_all", defines={"BSIZE": b, "K": k}, unwind=b + k + 3,
+                     unwindset=hus(b, k, 0), object_bits=10, bounded=hb(b, k), functions=["parsec_hbbuffer_push_all"],
+                     min_obligations=12, timeout=600))
+    for b in (3,) + ((1, 2, 4) if full else ()):
+        J.append(Job("hbb.pop_best.b%d" % b, "h_hbb.c", entry="h_pop_best", defines={"BSIZE": b, "K": 1}, unwind=b + 4,
+                     unwindset=hus(b, 1, 0), object_bits=10, bounded="buffer of %d slots (occupancy, priorities symbolic)" % b,
+                     functions=["parsec_hbbuffer_pop_best"], min_obligations=8, timeout=600))
+    for b, k in [(2, 2)] + ([(3, 2), (2, 3)] if full else []):
+        for e, fn in (("rg_push_prio", "parsec_hbbuffer_push_all_by_priority"), ("rg_push_all", "parsec_hbbuffer_push_all")):
+            J.append(Job("hbb.%s.b%d.k%d" % (e, b, k), "h_hbb.c", entry="h_" + e, defines={"BSIZE": b, "K": k, "MAXENV": 1},
+                         unwind=b + k + 3, unwindset=hus(b, k, 1), object_bits=10,
+                         bounded=hb(b, k, "; at most 1 action of another thread (steals an empty slot / pops a resident) before or "
+                                          "after one of my compare-and-swaps"),
+                         functions=[fn], min_obligations=12, timeout=600, canaries=2))
     return J
 
 
@@ -133,7 +162,13 @@ META = dict(
                 "LIFO by any Rely-conforming state before and after each fence / CAS (VERIF_RG_POST_STEP), guarantees asserted at my successful "
                 "CAS (fast-path push: ring in order in front of the current stack; detach: whole stack becomes mine and my ring is again a "
                 "well-formed ring of exactly my tasks; re-attach: the installed chain is acyclic and holds every ring task and every detached "
-                "task exactly once), nothing left private on return.",
+                "task exactly once), nothing left private on return. "
+                "Part 4 (h_hbb.c): the hierarchical bounded buffer of the real parsec/hbbuffer.c (parsec_hbbuffer_push_all_by_priority = pbq, "
+                "parsec_hbbuffer_push_all = lfq/lhq/ltq, parsec_hbbuffer_pop_best): representation invariant 'every resident is a singleton "
+                "ring' as pre- and postcondition, a recording parent store that walks the ring it is handed; every task of (residents before + "
+                "pushed ring) is afterwards in exactly one slot or was handed to the parent exactly once; with a ring in non-increasing "
+                "priority order no resident has a lower priority than a task handed up; plus one interference job per push function "
+                "(another thread steals an empty slot or pops a resident before/after one of my compare-and-swaps).",
     trusted_base=["recording stub for parsec_current_scheduler->module.schedule; parsec_pins_instrument, parsec_output no-ops; "
                   "parsec_my_execution_stream answers the caller's stream (stream 0 of VP 0 for a NULL submitter)",
                   "parsec_barrier_wait stubbed as a no-op: streams run flow_<M>_init one after the other, stream 0 first; rand() stubbed as a non-negative nondeterministic value",
@@ -149,7 +184,11 @@ META = dict(
                   "single_writer the others only pop) is what lifo_chain_sorted / parsec_lifo_pop guarantee (counter bump on every update, "
                   "checked for lifo_chain_sorted here, for parsec_lifo_pop in C30) plus the caller's single_writer promise (NOT checked: "
                   "__parsec_reschedule may schedule on another stream's LIFO with th_id != 0); lifo_chain_sorted is run on small items "
-                  "{list_item, prio} through its own offset parameter instead of parsec_task_t"],
+                  "{list_item, prio} through its own offset parameter instead of parsec_task_t",
+                  "hbbuffer: the trailing slot array items[1] is re-declared with its run-time length while hbbuffer.h is read (member "
+                  "offsets unchanged, static assert) and calloc serves the one buffer from a typed static object; the compare-and-swap on a "
+                  "slot goes through an address case split (identity); induction 'INV holds along every history' is a paper argument over the "
+                  "per-call contracts; the interference jobs allow ONE action of another thread"],
     assumptions=["NO concurrency: atomics and locks run without interference (the property's concurrent schedule/select clause is not decided)",
                  "every module's schedule() answers 0 (obligation sched_<M>_schedule.post.returns_success for the covered modules; by "
                  "inspection for the others) - used as precondition of __parsec_schedule_vp",
@@ -166,8 +205,9 @@ MANIFEST = dict(
          "for symbolic priorities, distances, streams and flags. Level 'other': bounded - VP/stream/ring shapes (<= 2 VP x 2 streams, rings <= 3) "
          "and module histories (<= 4 tasks, <= 3 schedule calls, enumerated scripts) are fixed per cbmc process; 5 of the 11 modules covered "
          "end to end, plus the insertion helpers of llp (lifo_chain_sorted / lifo_merge_ring) sequentially and under rely/guarantee interference "
-         "(pool of 3-4 items, ring 1-2, <= 1-2 induced CAS failures, <= 1 repeat round).",
-    note="NOT COVERED: modules ll, lfq, lhq, ltq, pbq; of llp only the helpers lifo_chain_sorted / lifo_merge_ring are covered (not flow_llp_init, sched_llp_schedule / _select as a module, which wrap them and parsec_lifo_pop = C30). ll was tried (real lifo.h, 128-bit counted-pointer CAS): path-wise > 4 min for a "
+         "(pool of 3-4 items, ring 1-2, <= 1-2 induced CAS failures, <= 1 repeat round), and the hbbuffer push / pop functions used by "
+         "lfq, lhq, ltq, pbq (buffers of 1-4 slots, rings 1-3, one interfering action).",
+    note="NOT COVERED as modules: ll, lfq, lhq, ltq, pbq (for the last four only their shared buffer parsec_hbbuffer_push_all / _push_all_by_priority / _pop_best is covered, per call, buffers <= 4 slots, rings <= 3; not their flow_init, the system queue, the maxheap of ltq, nor module-level histories); of llp only the helpers lifo_chain_sorted / lifo_merge_ring are covered (not flow_llp_init, sched_llp_schedule / _select as a module, which wrap them and parsec_lifo_pop = C30). ll was tried (real lifo.h, 128-bit counted-pointer CAS): path-wise > 4 min for a "
          "4-operation history, monolithic > 200 s and 12-23 GB even for 'S(1) X X' - dropped; the hbbuffer / maxheap modules were not "
          "attempted (their helpers are properties C35 / C30; their multi-barrier flow_init has no valid sequential order for 2 streams with a no-op barrier); any concurrent interleaving; more than 2 streams, rings > 3, more than 4 tasks; the real flow_<M>_init is NOT run: the "
          "history jobs start from a hand-written copy of the state it leaves (see trusted base); cross-VP isolation inside a module (one VP per harness). "
